@@ -381,6 +381,66 @@ namespace
         }
     };
 
+    // nscript: a scripted scheduler node built as a NATIVE node with two inputs that are both REQUIRED valid
+    // (valid_inputs {0,1}); the second is usually wired passive.  Readiness is decided by node.cpp's generic gate,
+    // and the scheduler bookkeeping after the gate (consume the fired event / re-arm the pending one) must happen
+    // whether or not user code ran.
+    thread_local std::map<std::string, int> g_nk;
+
+    NodeBuilder native_script(Int id)
+    {
+        auto       &registry = TypeRegistry::instance();
+        const auto *int_meta = registry.register_scalar<Int>("int");
+        const auto *ts_int   = registry.ts(int_meta);
+        const auto *input_schema = registry.un_named_tsb({{"a", ts_int}, {"b", ts_int}});
+
+        NodeTypeMetaData schema;
+        schema.display_name   = "n_script";
+        schema.input_schema   = input_schema;
+        schema.output_schema  = ts_int;
+        schema.node_kind      = NodeKind::Compute;
+        schema.uses_scheduler = true;
+        schema.valid_inputs   = std::vector<std::size_t>{0, 1};
+
+        NodeCallbacks callbacks;
+        callbacks.start = [id](const NodeView &view, DateTime now) {
+            NodeScheduler sched{view.scheduler_state(), view.graph_value(), view.node_index(), now, false};
+            const auto &sc = scripts_of(id);
+            std::optional<Int> emit;
+            if (!sc.empty()) { run_script_ops(sc[0], sched, emit); }
+            g_nk[lbl_of(view)] = 1;
+            logf("B " + lbl_of(view) + " " + std::to_string(us(now)) + " " + sched_q(sched));
+        };
+        callbacks.evaluate = [id](const NodeView &view, DateTime now) {
+            NodeScheduler sched{view.scheduler_state(), view.graph_value(), view.node_index(), now};
+            auto root   = view.input(now);
+            auto bundle = root.as_bundle();
+            auto a = bundle[0];
+            auto b = bundle[1];
+            const auto &sc = scripts_of(id);
+            const std::string me = lbl_of(view);
+            const auto i = static_cast<std::size_t>(g_nk[me]);
+            const std::string before = sched_q(sched);
+            std::optional<Int> emit;
+            g_nk[me] = static_cast<int>(i + 1);
+            try
+            {
+                if (i < sc.size()) { run_script_ops(sc[i], sched, emit); }
+            }
+            catch (...)
+            {
+                logf("E " + me + " " + std::to_string(us(now)) + " k=" + std::to_string(i) + " " + before + " THROW");
+                throw;
+            }
+            if (emit.has_value()) { testing::set_output_value(view, now, Int{*emit}); }
+            logf("E " + me + " " + std::to_string(us(now)) + " k=" + std::to_string(i) + " " + before + " " + sched_q(sched) +
+                 " a=" + view_desc(a) + " b=" + view_desc(b));
+        };
+        return NodeBuilder::native(std::move(schema), std::move(callbacks),
+                                   TSEndpointSchema::non_peered(input_schema, {TSEndpointSchema::peered(ts_int),
+                                                                               TSEndpointSchema::peered(ts_int)}));
+    }
+
     bool fault_due(std::int64_t id, char phase)
     {
         int &n = g_fault_calls[id][phase];
@@ -616,6 +676,15 @@ namespace
             nb.label("ng_" + std::to_string(static_cast<long long>(lbl)));
             WiringPortRef out = w.add_node(def, std::move(nb), std::span<const WiringPortRef>{ins.data(), ins.size()},
                                            lbl_scalars(lbl));
+            env.ports.emplace(key, P{w, std::move(out)});
+        }
+        else if (n.kind == "nscript")
+        {
+            std::array<WiringPortRef, 2> ins{arg(1).erased(), arg(2).erased()};
+            NodeBuilder nb = native_script(num(0));
+            nb.label("ng_" + std::to_string(static_cast<long long>(lbl)));
+            WiringPortRef out = w.add_node(std::type_index(typeid(NGateDef<9>)), std::move(nb),
+                                           std::span<const WiringPortRef>{ins.data(), ins.size()}, lbl_scalars(lbl * 1000 + num(0)));
             env.ports.emplace(key, P{w, std::move(out)});
         }
         else if (n.kind == "script")
